@@ -5,6 +5,13 @@ V = "/verif"
 props = [json.loads(l) for l in open(V + "/properties.jsonl")]
 
 CLAIMED = {
+ "C02": dict(
+    text="TABLE and path rules: every problem code that can reach fix_problem() (constants, constant-valued locals, constants passed to helpers) has exactly one problem_table row, "
+         "the zero terminator is last, PR_AFTER_CODE/latch references resolve; per row the (has prompt, PR_NO_OK) pair equals the reference recorded from the pinned tree; "
+         "fix_problem un-marks the fs valid on a declined answer restricted only by PR_NO_OK/prompt, -n answers no, nobody re-marks valid after the run started and no store to fs->flags can resurrect the VALID bit "
+         "(wholesale restores are checked against calls that may un-mark); main or-s FSCK_UNCORRECTED into the exit status whenever the fs is not valid and nothing clears it. "
+         "Decides that every inconsistency e2fsck detects yields a non-zero -fn exit; does not decide that passes 1-5 detect every inconsistency.",
+    ref="§4 C02", technique="static analysis: initialiser-table consistency, constant resolution of call arguments, control dependence, who-may-store over the call graph"),
  "C08": dict(
     text="ORDER/WHO/GATED-EFFECT rules on every CFG path and over the resize2fs call graph: the EXT2_ERROR_FS store, dirty-mark and flush come in that order in resize_fs and dominate every write-capable call and the handle duplication; "
          "among all functions reachable from resize_fs only resize_fs clears the flag, after every phase, and only the final close follows; ext2fs_flush2 writes the primary superblock last with a flush before and after; "
